@@ -2,7 +2,7 @@ import Hive.Proofs.WorkerPoolLive2
 /-!
 # C16 — termination: in a reachable configuration where nobody can move, everything is done
 
-(under the hypotheses that exclude the recorded life-cycle windows).
+(for the repaired code: no hypothesis about the schedule).
 -/
 set_option linter.unusedSimpArgs false
 set_option linter.unusedVariables false
@@ -22,7 +22,7 @@ theorem finv_init (p : Params) (ts : List Thr) (h : ∀ t ∈ ts, t.fresh = true
   ⟨ginv_init p ts h, linv_init p, ti_init p ts h, os_init ts h, hr⟩
 
 theorem finv_step (p : Params) (hW : 0 < p.W) (a b : Cfg St Thr) (h : FInv p a) (hs : Step (sys p) a b) : FInv p b := by
-  refine ⟨ginv_step p a b h.g hs, ?_, ti_step p a b h.g.st h.t hs, os_step p a b h.g.st h.o hs, ?_⟩
+  refine ⟨ginv_step p a b h.g hs, ?_, ti_step p a b h.g.st h.l h.t hs, os_step p a b h.g.st h.o hs, ?_⟩
   · cases hs with
     | mk s pre t post s' t' hmem =>
       cases t with
@@ -71,7 +71,7 @@ theorem submit_enabled {p : Params} {s : St} {t : Nat} (hu : unret s t = true) (
 
 /-- What a worker that cannot move looks like. -/
 theorem worker_stuck {p : Params} {s : St} {w : WPc} (hL : LInv p s) (hw : w ∈ s.workers)
-    (hsub : ∀ c, w.subs c = true → submitStep p s c ≠ []) (h : wStep p s w = []) :
+    (hsub : ∀ c, w.subs c = true → submitStep p s c ≠ []) (hsh : s.stackHeld = false) (h : wStep p s w = []) :
     w = .exited ∨ ((w = .sel2 ∧ s.sig = 0 ∨ w = .drain) ∧ chanIds s = [] ∧ s.closed = false) := by
   cases w with
   | exited => exact Or.inl rfl
@@ -136,11 +136,12 @@ theorem worker_stuck {p : Params} {s : St} {w : WPc} (hL : LInv p s) (hw : w ∈
       obtain ⟨ph, r, k⟩ := x
       simp [ht] at hph h
       cases ph <;> simp [Phase.isMarking] at hph <;> simp at h
+  | signal dr => simp [wStep, hsh] at h
 
 /-- What a client that cannot move looks like, when neither the pool lock nor the stack mutex is held. -/
 theorem client_stuck {p : Params} {s : St} {c : Client} (hw : s.writer = false) (hsh : s.stackHeld = false)
     (hloc : c.pc.locked = false) (hsub : ∀ t, c.pc = .sub t → unret s t = true) (h : clientStep p s c = []) :
-    (c.pc = .idle ∧ c.script = []) ∨ ((c.pc = .wc ∨ c.pc = .stWait1) ∧ wg s ≠ 0) ∨ (c.pc = .wz ∧ s.pending ≠ 0) := by
+    (c.pc = .idle ∧ c.script = []) ∨ ((c.pc = .wc ∨ c.pc = .stWait) ∧ wg s ≠ 0) ∨ (c.pc = .wz ∧ s.pending ≠ 0) := by
   obtain ⟨pc, script⟩ := c
   cases pc <;> simp [CPc.locked] at hloc
   case idle =>
@@ -152,13 +153,17 @@ theorem client_stuck {p : Params} {s : St} {c : Client} (hw : s.writer = false) 
     simp only [clientStep, List.map_eq_nil_iff] at h
     exact absurd h (submit_enabled (hsub t rfl) hw hsh)
   case sd1 => simp [clientStep, hw] at h; split at h <;> simp at h
-  case st0 => simp [clientStep, hw] at h; split at h <;> simp at h
-  case stWait1 =>
+  case sdBcast => simp [clientStep, hsh] at h
+  case stTry =>
+    simp [clientStep, hw] at h
+    split at h
+    · simp at h
+    · split at h <;> simp at h
+  case stWait =>
     simp only [clientStep] at h
     by_cases hz : wg s = 0
     · rw [if_pos hz] at h; simp at h
     · exact Or.inr (Or.inl ⟨Or.inr rfl, hz⟩)
-  case stLock => simp [clientStep, hw] at h
   case wc =>
     simp only [clientStep] at h
     by_cases hz : wg s = 0
@@ -169,8 +174,6 @@ theorem client_stuck {p : Params} {s : St} {c : Client} (hw : s.writer = false) 
     by_cases hz : s.pending = 0
     · rw [if_pos hz] at h; simp at h
     · exact Or.inr (Or.inr ⟨rfl, hz⟩)
-
-
 
 /-- Facts extracted from "nobody can move". -/
 structure StuckFacts (p : Params) (s : St) (ts : List Thr) : Prop where
@@ -203,8 +206,8 @@ theorem no_sel_of_stuck {p : Params} {s : St} (h : ∀ w ∈ s.workers, wStep p 
   simp only [wStep] at this; split at this <;> simp at this
 
 /-- Step A: the pool lock is free. -/
-theorem stuck_writer {p : Params} {s : St} {ts : List Thr} (F : FInv p (s, ts)) (S : StuckFacts p s ts)
-    (hsr : s.startRace = false) : s.writer = false := by
+theorem stuck_writer {p : Params} {s : St} {ts : List Thr} (F : FInv p (s, ts)) (S : StuckFacts p s ts) :
+    s.writer = false := by
   cases hw : s.writer with
   | false => rfl
   | true =>
@@ -229,13 +232,8 @@ theorem stuck_writer {p : Params} {s : St} {ts : List Thr} (F : FInv p (s, ts)) 
             rw [no_sel_of_stuck S.wk, hsent] at n1
             omega
         · rw [if_neg hj] at hs; simp at hs
-      case sdBcast => simp [clientStep] at hs
-      case sdUnlock => simp [clientStep] at hs
-      case stWait2 =>
-        have := F.t.s1 hsr _ ht _ rfl rfl
-        simp only at this
-        simp [clientStep, this] at hs
-      case stUnlock => simp [clientStep] at hs
+      case sdUnlockS => simp [clientStep] at hs
+      case sdUnlockN => simp [clientStep] at hs
 
 /-- Step B: the stack mutex is free. -/
 theorem stuck_stack {p : Params} {s : St} {ts : List Thr} (F : FInv p (s, ts)) (S : StuckFacts p s ts)
@@ -245,19 +243,18 @@ theorem stuck_stack {p : Params} {s : St} {ts : List Thr} (F : FInv p (s, ts)) (
   | true =>
     exfalso
     have hd := S.disp
-    have h1 : s.stackHeld = true ↔ (s.disp = .cond ∨ s.disp = .gap) := F.l.h1
-    rcases h1.mp hh with a | a
-    · simp only [dispStep, a, hw] at hd; simp at hd; split at hd <;> simp at hd
+    have h1 : s.stackHeld = true ↔ (s.disp = .cond ∨ s.disp = .cond2 ∨ s.disp = .gap) := F.l.h1
+    rcases h1.mp hh with a | a | a
+    · simp only [dispStep, a, hw] at hd; simp at hd
+    · simp only [dispStep, a] at hd; split at hd <;> simp at hd
     · simp only [dispStep, a] at hd; simp at hd
-
-
 
 /-- Steps C/D: every worker is parked or gone, every client is done or waits for a counter. -/
 theorem stuck_threads {p : Params} {s : St} {ts : List Thr} (F : FInv p (s, ts)) (S : StuckFacts p s ts)
     (hw : s.writer = false) (hsh : s.stackHeld = false) :
     (∀ w ∈ s.workers, w = .exited ∨ ((w = .sel2 ∧ s.sig = 0 ∨ w = .drain) ∧ chanIds s = [] ∧ s.closed = false)) ∧
     (∀ cl, Thr.client cl ∈ ts →
-      (cl.pc = .idle ∧ cl.script = []) ∨ ((cl.pc = .wc ∨ cl.pc = .stWait1) ∧ wg s ≠ 0) ∨ (cl.pc = .wz ∧ s.pending ≠ 0)) ∧
+      (cl.pc = .idle ∧ cl.script = []) ∨ ((cl.pc = .wc ∨ cl.pc = .stWait) ∧ wg s ≠ 0) ∨ (cl.pc = .wz ∧ s.pending ≠ 0)) ∧
     (∀ tid, unret s tid = false) := by
   have hO : ∀ tid, ts.countP (Thr.subs tid) + s.workers.countP (WPc.subs tid) = b2n (unret s tid) := F.o
   have unret_of_pos : ∀ tid, 0 < ts.countP (Thr.subs tid) + s.workers.countP (WPc.subs tid) → unret s tid = true := by
@@ -267,7 +264,7 @@ theorem stuck_threads {p : Params} {s : St} {ts : List Thr} (F : FInv p (s, ts))
     | false => have := hO tid; rw [hu] at this; simp only [b2n_false] at this; omega
   have hWk : ∀ w ∈ s.workers, w = .exited ∨ ((w = .sel2 ∧ s.sig = 0 ∨ w = .drain) ∧ chanIds s = [] ∧ s.closed = false) := by
     intro w hwm
-    refine worker_stuck F.l hwm ?_ (S.wk w hwm)
+    refine worker_stuck F.l hwm ?_ hsh (S.wk w hwm)
     intro c hc
     have : 0 < s.workers.countP (WPc.subs c) := List.countP_pos_iff.mpr ⟨w, hwm, hc⟩
     exact submit_enabled (unret_of_pos c (by omega)) hw hsh
@@ -280,7 +277,7 @@ theorem stuck_threads {p : Params} {s : St} {ts : List Thr} (F : FInv p (s, ts))
       have w1 : b2n s.writer = ts.countP Thr.locked := F.t.w1
       rw [hw] at w1; simp only [b2n_false] at w1; omega
   have hCl : ∀ cl, Thr.client cl ∈ ts →
-      (cl.pc = .idle ∧ cl.script = []) ∨ ((cl.pc = .wc ∨ cl.pc = .stWait1) ∧ wg s ≠ 0) ∨ (cl.pc = .wz ∧ s.pending ≠ 0) := by
+      (cl.pc = .idle ∧ cl.script = []) ∨ ((cl.pc = .wc ∨ cl.pc = .stWait) ∧ wg s ≠ 0) ∨ (cl.pc = .wz ∧ s.pending ≠ 0) := by
     intro cl hcl
     refine client_stuck hw hsh (hloc cl hcl) ?_ (S.cl cl hcl)
     intro t hp
@@ -368,31 +365,48 @@ theorem popOrCond_ne (s : St) : popOrCond s ≠ [] := by
   · simp
   · rename_i h; intro e; simp at e; exact h e
 
-/-- **Core of the termination theorem.**  In a configuration satisfying all invariants in which no
-`Submit` raced a `Shutdown`, no shutdown broadcast was lost and no `Start` locked a stopping pool: if
-nobody can move, then the counter is zero, every client call has returned except waits for the
-completion of a shutdown of a pool that is running (again), and a stopped pool has no live goroutine. -/
+/-- **Core of the termination theorem.**  In a configuration satisfying all invariants: if nobody can
+move, then the counter is zero, every client call has returned except waits for the completion of a
+shutdown of a pool that is running (again), and a stopped pool has no live goroutine. -/
 theorem stuck_good {p : Params} {s : St} {ts : List Thr} (hW : 0 < p.W) (F : FInv p (s, ts))
-    (hraced : s.raced = false) (hlost : s.lost = false) (hsr : s.startRace = false) (hst : Stuck (sys p) (s, ts)) :
+    (hst : Stuck (sys p) (s, ts)) :
     s.pending = 0 ∧
     (∀ t ∈ ts, t.finished = true ∨ (t.atWaitComplete = true ∧ s.running = true)) ∧
     (s.running = false → wg s = 0) := by
   have S := stuck_facts F.r hst
-  have hw := stuck_writer F S hsr
+  have hw := stuck_writer F S
   have hsh := stuck_stack F S hw
   obtain ⟨hWk, hCl, hret⟩ := stuck_threads F S hw hsh
   have L : LInv p s := F.l
   have hcons : s.pending = cnt fPend s := F.g.st.cons
-  -- no broadcast is pending: that would need the lock
-  have hbp : s.bcastPending = false := by
-    cases hb : s.bcastPending with
-    | false => rfl
-    | true =>
-      have tb : b2n s.bcastPending = ts.countP Thr.bc := F.t.tb
-      have w1 : b2n s.writer = ts.countP Thr.locked := F.t.w1
-      have := bc_le_locked ts
-      rw [hb] at tb; rw [hw] at w1; simp only [b2n_true, b2n_false] at tb w1; omega
-  -- a live parked worker means: channel empty, not closed
+  -- nobody owes a signal to the queue: such a thread could move
+  have hdue : s.due = 0 := by
+    have du : s.due = ts.countP Thr.bc + s.workers.countP WPc.isSignal := F.t.du
+    have a : ts.countP Thr.bc = 0 := by
+      rw [List.countP_eq_zero]; intro t ht
+      cases t with
+      | runner => simp [Thr.bc]
+      | client cl =>
+        obtain ⟨pc, sc⟩ := cl
+        have hloc : CPc.locked pc = false := by
+          cases hl : CPc.locked pc with
+          | false => rfl
+          | true =>
+            have : 0 < ts.countP Thr.locked := List.countP_pos_iff.mpr ⟨_, ht, by simp [Thr.locked, hl]⟩
+            have w1 : b2n s.writer = ts.countP Thr.locked := F.t.w1
+            rw [hw] at w1; simp only [b2n_false] at w1; omega
+        rcases hCl _ ht with x | x | x
+        · simp at x; rw [x.1]; simp [Thr.bc, CPc.bc]
+        · rcases x.1 with y | y <;> (simp at y; rw [y]; simp [Thr.bc, CPc.bc])
+        · simp at x; rw [x.1]; simp [Thr.bc, CPc.bc]
+    have b : s.workers.countP WPc.isSignal = 0 := by
+      rw [List.countP_eq_zero]; intro w hwm
+      rcases hWk w hwm with x | x
+      · subst x; simp [WPc.isSignal]
+      · rcases x.1 with y | y
+        · rw [y.1]; simp [WPc.isSignal]
+        · rw [y]; simp [WPc.isSignal]
+    omega
   have parked : ∀ w ∈ s.workers, w.isExited = false → chanIds s = [] ∧ s.closed = false := by
     intro w hwm he
     rcases hWk w hwm with a | a
@@ -400,16 +414,17 @@ theorem stuck_good {p : Params} {s : St} {ts : List Thr} (hW : 0 < p.W) (F : FIn
     · exact a.2
   -- the dispatcher
   have hd := S.disp
-  have hdisp : s.disp = .none ∨ (s.disp = .waiting ∧ s.dwait = true) ∨ (s.disp = .waitZero ∧ s.pending ≠ 0) := by
+  have hdisp : s.disp = .none ∨ (s.disp = .waiting ∧ s.dwait = true) := by
     cases hdd : s.disp with
     | none => exact Or.inl rfl
     | loop => simp [dispStep, hdd, hw] at hd
-    | size => simp [dispStep, hdd, hsh] at hd
+    | chk => simp [dispStep, hdd] at hd
     | pop => simp [dispStep, hdd, hsh] at hd; exact absurd hd (popOrCond_ne s)
-    | cond => simp [dispStep, hdd, hw] at hd; split at hd <;> simp at hd
+    | cond => simp [dispStep, hdd, hw] at hd
+    | cond2 => simp only [dispStep, hdd] at hd; split at hd <;> simp at hd
     | gap => simp [dispStep, hdd] at hd
     | waiting =>
-      right; left
+      right
       refine ⟨rfl, ?_⟩
       cases hdw : s.dwait with
       | true => rfl
@@ -431,18 +446,11 @@ theorem stuck_good {p : Params} {s : St} {ts : List Thr} (hW : 0 < p.W) (F : FIn
       obtain ⟨w, hwm⟩ := List.exists_mem_of_ne_nil _ hne
       have hch := (parked w hwm (L.d3 hnc w hwm)).1
       simp [dispStep, hdd, hch, hW, hnc, hpop] at hd
-    | waitZero =>
-      right; right
-      refine ⟨rfl, ?_⟩
-      intro hz
-      simp [dispStep, hdd, hz] at hd
     | close => simp [dispStep, hdd] at hd
   have hns : s.disp.isSend = false := by
-    rcases hdisp with a | a | a
+    rcases hdisp with a | a
     · rw [a]; rfl
     · rw [a.1]; rfl
-    · rw [a.1]; rfl
-  -- the channel is empty
   have hch : s.tasks.countP fCh = 0 := by
     by_cases hex : ∃ w ∈ s.workers, w.isExited = false
     · obtain ⟨w, hwm, he⟩ := hex
@@ -467,7 +475,6 @@ theorem stuck_good {p : Params} {s : St} {ts : List Thr} (hW : 0 < p.W) (F : FIn
         · exact a.2.1
       exact L.d5 (Or.inr hdn)
   have hpq : s.pending = s.tasks.countP fQ := by rw [hcons]; exact pend_eq_queued L hWk hret hns hch
-  -- finishing a client from its classification
   have fin : (wg s = 0 ∨ s.running = true) → s.pending = 0 → ∀ t ∈ ts,
       t.finished = true ∨ (t.atWaitComplete = true ∧ s.running = true) := by
     intro hwg hp0 t ht
@@ -481,14 +488,13 @@ theorem stuck_good {p : Params} {s : St} {ts : List Thr} (hW : 0 < p.W) (F : FIn
         · exact absurd z a.2
         · right; rcases a.1 with b | b <;> (simp at b; subst b; exact ⟨rfl, z⟩)
       · exact absurd hp0 a.2
-  rcases hdisp with hdn | hdw | hdz
+  rcases hdisp with hdn | hdw
   · -- no dispatcher: the pool is stopped and everybody has left
     have hnr : s.running = false := by
       cases hr : s.running with
       | false => rfl
       | true => exact absurd hdn (L.d8 hr)
-    have hq : s.tasks.countP fQ = 0 := L.rw hraced hnr (Or.inr (Or.inr hdn))
-    have hp0 : s.pending = 0 := by omega
+    have hp0 : s.pending = 0 := L.pz (Or.inr hdn) hnr
     have hwg : wg s = 0 := by
       unfold wg
       rw [List.countP_eq_zero]
@@ -500,20 +506,14 @@ theorem stuck_good {p : Params} {s : St} {ts : List Thr} (hW : 0 < p.W) (F : FIn
         · rw [a] at b; simp at b
     exact ⟨hp0, fin (Or.inl hwg) hp0, fun _ => hwg⟩
   · -- the dispatcher sleeps on an empty queue: the pool is running and idle
-    have hq : s.tasks.countP fQ = 0 := L.q1 (Or.inr (Or.inr hdw))
+    have hq : s.tasks.countP fQ = 0 := L.q1 (Or.inr (Or.inr (Or.inr hdw)))
     have hp0 : s.pending = 0 := by omega
     have hrun : s.running = true := by
-      cases hr : s.running with
-      | true => rfl
-      | false => exact absurd hdw (L.lw hr hbp hlost).2
+      rcases L.lw (Or.inr hdw) with a | a | a
+      · exact a
+      · omega
+      · omega
     exact ⟨hp0, fin (Or.inr hrun) hp0, fun h => by rw [hrun] at h; cases h⟩
-  · -- the dispatcher waits for zero: impossible, the counter is zero
-    exfalso
-    have hnr : s.running = false := L.d7 (by rw [hdz.1]; rfl)
-    have hq : s.tasks.countP fQ = 0 := L.rw hraced hnr (Or.inl hdz.1)
-    exact hdz.2 (by omega)
-
-
 
 /-- When `ShutdownComplete` is at zero there is no dispatcher and the dispatch channel is empty: `Start`'s
 spawn never overwrites a live dispatcher or inherits channel content. -/
